@@ -140,7 +140,7 @@ int harness_main(void) {
   pthread_t th[3];
   for (int i = 1; i <= nthreads; i++) pthread_create(&th[i - 1], 0, body, (void*)(intptr_t)i);
   fmc_begin();
-  while (!all_done()) fmc_yield();
+  fmc_wait_threads();
   int expect = 0;
   check_log(base);
   if (g_spins_in_try) fmc_fail("spinlock: trylock waited (%d spins inside trylock)", g_spins_in_try);
